@@ -20,7 +20,9 @@ MANIFEST = {
             "extracted-model/implementation correspondence on junction strings of every magnitude and length class and "
             "direct compositionality / soft-public commutation / SS58 address checks on the Substrate coins.",
     "note": "sr25519 (schnorrkel) and Blake2b are oracles; soft/public commutation is proved from one assumed law of "
-            "the oracle. The SS58 address clause is a direct check only (SS58 belongs to another model).",
+            "the oracle. The SS58 address clause was a direct check only; LINKED: wallet_address_is_ss58_of_derived_key puts it on the "
+            "SS58 model of C11 (link.sub_*_c entries), and this property's SCALE compact / UTF-8 encoders are proved equal to the "
+            "other transcriptions in the tree (C11 Model/Scale.v; Model/MnemText.v, Model/Seeds.v).",
     "technique": "Coq proof + generated-constant obligations + extracted-model differential run + direct property checks",
     "ref": "7/C19",
 }
